@@ -397,6 +397,122 @@ Proof.
   - exists sp, fr. cbv zeta. rewrite <- Hr. auto.
 Qed.
 
+(* ------------------------------------------------------------------ several calls in one exe_dir *)
+Lemma twrite_other a w f c g : g <> f -> twrite a w f c g = w g.
+Proof.
+  intros H. unfold twrite. destruct (fname_eqb g f) eqn:E; [|reflexivity].
+  apply fname_eqb_eq in E. contradiction.
+Qed.
+
+Lemma twrite_same a w f c : twrite a w f c f = if a then w f ++ [c] else [c].
+Proof.
+  unfold twrite. destruct (fname_eqb f f) eqn:E; [reflexivity|].
+  assert (fname_eqb f f = true) by (apply fname_eqb_eq; reflexivity). congruence.
+Qed.
+
+(* the rule "extraction overwrites": whatever conf.<ext> held, it now holds that snapshot only *)
+Lemma extract_overwrites w fr : twrite (negb true) w FConf fr FConf = [fr].
+Proof. cbn [negb]. apply twrite_same. Qed.
+
+Lemma modify_tworld_spec run w s w' s' r :
+  modify_tworld true run w s = Some (w', s', r) ->
+  (forall f, f <> FConf -> f <> FGenvel -> w' f = w f) /\
+  call_alone w (s, run) = Some r /\
+  w' FConf = match nth_error (w (t_file s)) (t_idx s) with Some fr => [fr] | None => [] end /\
+  w' FGenvel = [r_frame r] /\
+  s' = mkTSys FGenvel 0 (Some (r_kin_new r)).
+Proof.
+  unfold modify_tworld, call_alone. cbn [fst snd].
+  destruct (nth_error (w (t_file s)) (t_idx s)) as [fr|] eqn:E; [|discriminate].
+  rewrite extract_overwrites. intros H. inversion H; subst; clear H.
+  split; [|split; [|split; [|split]]].
+  - intros f H1 H2. rewrite !twrite_other by assumption. reflexivity.
+  - reflexivity.
+  - rewrite twrite_other by discriminate. apply extract_overwrites.
+  - apply twrite_same.
+  - reflexivity.
+Qed.
+
+Lemma call_alone_ext w1 w2 c :
+  from_source c -> (forall n, w1 (FSrc n) = w2 (FSrc n)) -> call_alone w1 c = call_alone w2 c.
+Proof. intros [n Hn] H. unfold call_alone. rewrite Hn, H. reflexivity. Qed.
+
+(* every call of a sequence yields what it yields alone: its result depends on its own shooting
+   point and its own operation (draws), not on the calls made before it in the same directory *)
+Lemma modify_seq_independent : forall calls w w' rs,
+  Forall from_source calls ->
+  modify_seq true w calls = Some (w', rs) ->
+  Forall2 (fun c r => call_alone w c = Some r) calls rs /\
+  (forall n, w' (FSrc n) = w (FSrc n)).
+Proof.
+  induction calls as [|[s run] rest IH]; intros w w' rs Hsrc H.
+  - cbn in H. inversion H; subst. split; [constructor|reflexivity].
+  - cbn [modify_seq] in H.
+    destruct (modify_tworld true run w s) as [[[w1 s1] r]|] eqn:E1; [|discriminate].
+    destruct (modify_seq true w1 rest) as [[w2 rs2]|] eqn:E2; [|discriminate].
+    inversion H; subst; clear H.
+    inversion Hsrc as [|c l Hc Hrest]; subst.
+    destruct (modify_tworld_spec _ _ _ _ _ _ E1) as (Hf & Hr & _).
+    assert (Hw1 : forall n, w1 (FSrc n) = w (FSrc n)) by (intros n; apply Hf; discriminate).
+    destruct (IH _ _ _ Hrest E2) as (Hall & Hw2).
+    split.
+    + constructor; [exact Hr|].
+      clear - Hall Hrest Hw1. induction Hall as [|c r cs rs Hcr _ IHH]; [constructor|].
+      inversion Hrest as [|c0 l0 Hc0 Hl0]; subst.
+      constructor; [|apply IHH; assumption].
+      rewrite <- Hcr. symmetry. apply call_alone_ext; assumption.
+    + intros n. rewrite Hw2. apply Hw1.
+Qed.
+
+(* the same statement for two different histories: what was regenerated earlier is irrelevant *)
+Lemma modify_seq_history_irrelevant before1 before2 c w w1 rs1 w2 rs2 :
+  Forall from_source (before1 ++ [c]) -> Forall from_source (before2 ++ [c]) ->
+  modify_seq true w (before1 ++ [c]) = Some (w1, rs1) ->
+  modify_seq true w (before2 ++ [c]) = Some (w2, rs2) ->
+  exists r, call_alone w c = Some r /\ last rs1 r = r /\ last rs2 r = r /\
+            rs1 = removelast rs1 ++ [r] /\ rs2 = removelast rs2 ++ [r].
+Proof.
+  intros S1 S2 H1 H2.
+  destruct (modify_seq_independent _ _ _ _ S1 H1) as (A1 & _).
+  destruct (modify_seq_independent _ _ _ _ S2 H2) as (A2 & _).
+  apply Forall2_app_inv_l in A1. destruct A1 as (a1 & b1 & _ & B1 & ->).
+  apply Forall2_app_inv_l in A2. destruct A2 as (a2 & b2 & _ & B2 & ->).
+  inversion B1 as [|x r l l' Hr Hn]; subst. inversion Hn; subst.
+  inversion B2 as [|x r' l l' Hr' Hn']; subst. inversion Hn'; subst.
+  assert (r' = r) by congruence. subst r'.
+  exists r. rewrite !last_last, !removelast_last. auto.
+Qed.
+
+(* the operation leaves the positions alone, so in a sequence every regenerated frame carries
+   the positions, box and identities of ITS shooting point, and kin_old is that frame's *)
+Lemma modify_seq_std_positions e mass zm sig cs files rs :
+  seq_results true files (map (std_call e mass zm sig) cs) = Some rs ->
+  Forall2 (fun c r => let '(fno, idx, ek, s) := c in
+             exists fr, nth_error (world_of_files files (FSrc fno)) idx = Some fr /\
+               r = modify_std e mass fr ek zm sig (cols_of_stream (f_npart fr) (f_dim fr) s) /\
+               f_pos (r_frame r) = f_pos fr /\ f_box (r_frame r) = f_box fr /\ f_ids (r_frame r) = f_ids fr /\
+               (e <> Gromacs -> r_kin_old r = Some (kinetic mass (f_vel fr))))
+          cs rs.
+Proof.
+  unfold seq_results. intros H.
+  destruct (modify_seq true (world_of_files files) (map (std_call e mass zm sig) cs)) as [[w' rs']|] eqn:E; [|discriminate].
+  inversion H; subst; clear H.
+  assert (Hsrc : Forall from_source (map (std_call e mass zm sig) cs)).
+  { apply Forall_forall. intros c Hc. apply in_map_iff in Hc. destruct Hc as ([[[fno idx] ek] s] & <- & _).
+    exists fno. reflexivity. }
+  destruct (modify_seq_independent _ _ _ _ Hsrc E) as (Hall & _).
+  clear E Hsrc. revert rs Hall. induction cs as [|[[[fno idx] ek] s] cs IH]; intros rs Hall.
+  - inversion Hall; subst. constructor.
+  - cbn [map] in Hall. inversion Hall as [|c r l l' Hr Hrest]; subst.
+    constructor; [|apply IH; assumption].
+    unfold call_alone, std_call in Hr. cbn [fst snd t_file t_idx t_ekin] in Hr.
+    destruct (nth_error (world_of_files files (FSrc fno)) idx) as [fr|] eqn:En; [|discriminate].
+    inversion Hr; subst; clear Hr. exists fr. split; [reflexivity|]. split; [reflexivity|].
+    destruct (positions_untouched_std e mass fr ek zm sig (cols_of_stream (f_npart fr) (f_dim fr) s)) as (P & B & I).
+    repeat split; try assumption.
+    intros He. unfold modify_std. destruct e; try reflexivity. contradiction.
+Qed.
+
 (* ------------------------------------------------------------------ the random stream *)
 Lemma nth_firstn_lt {A} (d : A) : forall n k (l : list A), (k < n)%nat -> nth k (firstn n l) d = nth k l d.
 Proof.
